@@ -12,3 +12,17 @@ open Model.C14
 #print axioms Model.C13.no_acquire_while_holding
 #print axioms join_heads_are_entries_any
 #print axioms heads_are_entries_every_schedule
+open Model.C13 in
+#print axioms shape_append
+open Model.C13 in
+#print axioms shape_join
+open Model.C13 in
+#print axioms shape_setIdentity
+open Model.C13 in
+#print axioms shape_readers
+open Model.C13 in
+#print axioms shape_toMultihash
+open Model.C13 in
+#print axioms shape_iterator
+open Model.C13 in
+#print axioms iterator_sends_after_unlock
